@@ -5,6 +5,7 @@ import (
 	"go/constant"
 	"go/token"
 	"go/types"
+	"strings"
 
 	"golang.org/x/tools/go/ssa"
 )
@@ -650,4 +651,96 @@ func ruleEOFActionPast(c *Ctx, r *Report) {
 		r.bad(rule, "Stream/eofAction", "-", "eof_action is applied only in state past", "no method of Stream consults eofAction")
 	}
 	r.analysed(rule, fmt.Sprintf("%d consultations of Stream.eofAction", n))
+}
+
+// ---------------------------------------------------------------------------
+// R-STREAM-TYPE-GUARD (C19; added after seed C19b): a Stream has one cursor but two units (bytes for a
+// binary stream, characters for a text stream). Inside the Stream type every byte-unit operation on the
+// underlying reader (ReadByte, UnreadByte) is reached only under the fact streamType == binary and every
+// rune-unit operation (ReadRune, UnreadRune) only under streamType == text. Without the guard an un-read in
+// the wrong unit moves the cursor back by a byte inside a multi-byte character (or is refused by the buffer
+// after the position was already adjusted): the next read repeats or splits input.
+
+func ruleStreamTypeGuard(c *Ctx, r *Report) {
+	const rule = "R-STREAM-TYPE-GUARD"
+	desc := "byte-unit cursor operations run only on binary streams and rune-unit operations only on text streams"
+	stNamed := c.engType("streamType")
+	if stNamed == nil {
+		r.undecided(rule, "anchor:streamType", "-", "locate the streamType enumeration", "not found")
+		return
+	}
+	e := c.enumOf(stNamed)
+	want := map[string]int64{}
+	if e != nil {
+		for _, k := range e.consts {
+			v, _ := constant.Int64Val(k.Val())
+			switch {
+			case strings.Contains(k.Name(), "Binary"):
+				want["byte"] = v
+			case strings.Contains(k.Name(), "Text"):
+				want["rune"] = v
+			}
+		}
+	}
+	if len(want) != 2 {
+		r.undecided(rule, "anchor:streamType-constants", "-", "locate streamTypeText/streamTypeBinary", "not found")
+		return
+	}
+	unit := map[string]string{"ReadByte": "byte", "UnreadByte": "byte", "ReadRune": "rune", "UnreadRune": "rune"}
+	n := 0
+	for _, fn := range c.LibFuncs() {
+		top := topFunc(fn)
+		if top.Signature.Recv() == nil || !isEngNamed(deref(top.Signature.Recv().Type()), "Stream") {
+			continue
+		}
+		seen := map[string]int{}
+		eachInstr(fn, func(in ssa.Instruction) {
+			ci, ok := in.(ssa.CallInstruction)
+			if !ok {
+				return
+			}
+			callee := ci.Common().StaticCallee()
+			if callee == nil || callee.Signature.Recv() == nil || !isNamedIn(deref(callee.Signature.Recv().Type()), "bufio", "Reader") {
+				return
+			}
+			u, ok := unit[callee.Name()]
+			if !ok {
+				return
+			}
+			n++
+			base := fmt.Sprintf("%s/buf.%s", fname(fn), callee.Name())
+			seen[base]++
+			key := fmt.Sprintf("%s#%d", base, seen[base])
+			guarded := false
+			for f := range c.factsAt(in.Block()) {
+				bo, ok := f.cond.(*ssa.BinOp)
+				if !ok {
+					continue
+				}
+				eq := (bo.Op == token.EQL && f.pol) || (bo.Op == token.NEQ && !f.pol)
+				if !eq {
+					continue
+				}
+				for _, pair := range [][2]ssa.Value{{bo.X, bo.Y}, {bo.Y, bo.X}} {
+					ld, ok := pair[0].(*ssa.UnOp)
+					if !ok || ld.Op != token.MUL {
+						continue
+					}
+					fa, ok := ld.X.(*ssa.FieldAddr)
+					if !ok || fieldName(fa) != "streamType" {
+						continue
+					}
+					if k, ok := constInt(pair[1]); ok && k == want[u] {
+						guarded = true
+					}
+				}
+			}
+			if guarded {
+				r.ok(rule, key, c.at(in), desc, fmt.Sprintf("reached only under streamType == %d (%s unit)", want[u], u), true)
+			} else {
+				r.bad(rule, base, c.at(in), desc, "no branch fact fixes the stream type before this "+u+"-unit operation: on a stream of the other type the cursor moves in the wrong unit")
+			}
+		})
+	}
+	r.analysed(rule, fmt.Sprintf("%d unit-specific operations on the underlying reader inside Stream", n))
 }
